@@ -128,6 +128,23 @@ def table():
     q("fix_list_of_mods")(lambda pp, a, x: pp.proforma.input_convert.fix_list_of_mods(x["rawmods"]))
     q("create_annotation")(lambda pp, a, x: pp.create_annotation("PEPTIDE", nterm_mods=x["modlist"], internal_mods=x["internaldict"]))
     q("parse_text")(lambda pp, a, x: pp.parse("[Acetyl]-PEP[1]TIDE/2"))
+    # ------------------------------------------------------------------ queries whose arguments are immutable texts:
+    # their answers can only depend on hidden process-wide state (caches, lazily completed tables)
+    q("t_parse_chem_formula")(lambda pp, a, x: pp.parse_chem_formula("C2H4"))
+    q("t_chem_mass")(lambda pp, a, x: pp.chem_mass("C2H4"))
+    q("t_mod_comp")(lambda pp, a, x: pp.mod_comp("Acetyl"))
+    q("t_mod_mass_avg_rounded")(lambda pp, a, x: pp.mod_mass("XLMOD:01000", monoisotopic=False, precision=1))
+    q("t_mod_mass_avg")(lambda pp, a, x: pp.mod_mass("XLMOD:01000", monoisotopic=False))
+    q("t_mod_mass_psi")(lambda pp, a, x: (pp.mod_mass("MOD:00046"), pp.mod_mass("MOD:00046", monoisotopic=False)))
+    q("t_comp_labelled_formula")(lambda pp, a, x: pp.comp("<13C>PEK[Formula:C2H4]"))
+    q("t_comp_formula")(lambda pp, a, x: pp.comp("PEK[Formula:C2H4]"))
+    q("t_mass_formula")(lambda pp, a, x: (pp.mass("PEK[Formula:C2H4]"), pp.mass("PEK[Formula:C2H4]", monoisotopic=False)))
+    q("t_apply_isotope_mods")(lambda pp, a, x: pp.apply_isotope_mods_to_composition("C2H4", ["13C"]))
+    q("t_glycan_comp")(lambda pp, a, x: pp.glycan_comp("HexNAc2Hex3"))
+    q("t_mass_names")(lambda pp, a, x: (pp.mass("PEM[Oxidation]K"), pp.mass("PEM[Oxidation]K", monoisotopic=False, precision=2),
+                                         pp.mass("PEM[U:35]K")))
+    q("t_fragment_text")(lambda pp, a, x: pp.fragment("PEM[Oxidation]K", ["b", "y"], 1, return_type="mass"))
+    q("t_digest_text")(lambda pp, a, x: pp.digest("PEKTIDERK", "trypsin", missed_cleavages=1))
     # ------------------------------------------------------------------ editors of the shared annotation
     e("pop_labile_mods")(lambda pp, a, x: a.pop_labile_mods())
     e("pop_nterm_mods")(lambda pp, a, x: a.pop_nterm_mods())
